@@ -36,6 +36,8 @@ func varint(x uint64) []byte {
 	return append(f, byte(x))
 }
 
+const framingAllocPerByte = 1024
+
 // framingChannels: what the node registers (ids and receive capacities of the consensus, tx-pool and block-sync
 // channels, scaled down so that "more than the capacity" is cheap to send).
 var framingChannels = []*conn.ChannelDescriptor{
@@ -44,10 +46,33 @@ var framingChannels = []*conn.ChannelDescriptor{
 	{ID: 0x40, Priority: 5, SendQueueCapacity: 4, RecvMessageCapacity: 1 << 20, RecvBufferCapacity: 4096},
 }
 
-// genFrames draws the raw bytes a peer writes into the connection.
-func genFrames(t *rapid.T) ([]byte, []string) {
+// genFrames draws the raw bytes a peer writes into the connection. Alongside it keeps a small reference model of the
+// receive side: per channel, the bytes of the message under assembly (+= len(Data) for every well-formed PacketMsg,
+// reset at EOF). As long as every earlier frame of the stream is a well-formed kind, the first moment an unterminated
+// message exceeds its channel's RecvMessageCapacity the connection MUST refuse (mustReject). The model is one-directional:
+// it never demands acceptance.
+func genFrames(t *rapid.T) ([]byte, []string, bool) {
 	var out []byte
 	var descs []string
+	capOf := map[int32]int{}
+	for _, d := range framingChannels {
+		capOf[int32(d.ID)] = d.RecvMessageCapacity
+	}
+	pending := map[int32]int{}
+	clean, mustReject := true, false
+	account := func(ch int32, n int, eof bool) {
+		if !clean || mustReject {
+			return
+		}
+		pending[ch] += n
+		if pending[ch] > capOf[ch] {
+			mustReject = true
+			return
+		}
+		if eof {
+			pending[ch] = 0
+		}
+	}
 	for i, n := 0, 1+spread(t, "frames", 8); i < n; i++ {
 		var b []byte
 		d := ""
@@ -55,8 +80,13 @@ func genFrames(t *rapid.T) ([]byte, []string) {
 		case 0:
 			ch := pick(t, "f.ch", int32(0x20), 0x20, 0x30, 0x40)
 			sz := pick(t, "f.size", 0, 1, 10, 1000, 1024, 1025, 2000)
-			b = delimited(&kp2p.Packet{Sum: &kp2p.Packet_PacketMsg{PacketMsg: &kp2p.PacketMsg{ChannelID: ch, EOF: rapid.Bool().Draw(t, "f.eof"), Data: make([]byte, sz)}}})
+			eof := rapid.Bool().Draw(t, "f.eof")
+			b = delimited(&kp2p.Packet{Sum: &kp2p.Packet_PacketMsg{PacketMsg: &kp2p.PacketMsg{ChannelID: ch, EOF: eof, Data: make([]byte, sz)}}})
 			d = fmt.Sprintf("msg(ch %#x,%d bytes)", ch, sz)
+			if sz > 1024 { // larger than the largest packet: refused for another reason, the model stops here
+				clean = false
+			}
+			account(ch, sz, eof)
 		case 1:
 			reps := pick(t, "f.pings", 1, 10, 1000, 20000)
 			one := delimited(&kp2p.Packet{Sum: &kp2p.Packet_PacketPing{PacketPing: &kp2p.PacketPing{}}})
@@ -71,37 +101,45 @@ func genFrames(t *rapid.T) ([]byte, []string) {
 			ch := pick(t, "f.badch", int32(0), 0x21, 0x7f, 0x80, 0xff, 0x100, 0x120, -1, 1<<31-1, -1<<31)
 			b = delimited(&kp2p.Packet{Sum: &kp2p.Packet_PacketMsg{PacketMsg: &kp2p.PacketMsg{ChannelID: ch, EOF: true, Data: []byte{1}}}})
 			d = fmt.Sprintf("msg(unknown ch %d)", ch)
+			clean = false
 		case 4: // a message longer than its channel allows, in maximal packets without EOF
 			ch := pick(t, "f.fill", int32(0x20), 0x30)
-			for j := 0; j < pick(t, "f.fill.n", 3, 5, 21); j++ {
+			for j, k := 0, pick(t, "f.fill.n", 3, 5, 21, 64); j < k; j++ {
 				b = append(b, delimited(&kp2p.Packet{Sum: &kp2p.Packet_PacketMsg{PacketMsg: &kp2p.PacketMsg{ChannelID: ch, Data: make([]byte, 1024)}}})...)
+				account(ch, 1024, false)
 			}
 			d = "over-capacity"
 		case 5: // length prefix only
 			b = varint(pick(t, "f.len", uint64(0), 1, 1034, 1035, 1036, 1<<20, 1<<31, 1<<32, 1<<62, 1<<63, ^uint64(0)))
 			d = "absurd-length"
+			clean = false
 		case 6:
 			b = []byte{0xff, 0xff, 0xff, 0xff, 0xff, 0xff, 0xff, 0xff, 0xff, 0xff, 0xff, 0x01}
 			d = "overlong-varint"
+			clean = false
 		case 7:
 			b = delimited(&kp2p.Packet{})
 			d = "empty-packet"
+			clean = false
 		case 8:
 			s := delimited(&kp2p.Packet{Sum: &kp2p.Packet_PacketMsg{PacketMsg: &kp2p.PacketMsg{ChannelID: 0x20, EOF: true, Data: []byte("hello")}}})
 			b = mutate(t, s)
 			d = "mutated"
+			clean = false
 		case 9:
 			b = randomBytes(t)
 			d = "random"
+			clean = false
 		case 10:
 			s := delimited(&kp2p.Packet{Sum: &kp2p.Packet_PacketMsg{PacketMsg: &kp2p.PacketMsg{ChannelID: 0x20, EOF: true, Data: make([]byte, 100)}}})
 			b = s[:spread(t, "f.cut", len(s))]
 			d = "truncated"
+			clean = false
 		}
 		out = append(out, b...)
 		descs = append(descs, d)
 	}
-	return out, descs
+	return out, descs, mustReject
 }
 
 // TestMConnFraming: raw bytes written into one end of a pipe with an MConnection on the other end. The connection
@@ -109,14 +147,15 @@ func genFrames(t *rapid.T) ([]byte, []string) {
 // a panic into an error that starts with "recovered from panic") and does not allocate beyond the bound.
 func TestMConnFraming(t *testing.T) {
 	rapid.Check(t, func(t *rapid.T) {
-		raw, descs := genFrames(t)
+		raw, descs, mustReject := genFrames(t)
 		text := func() string { return fmt.Sprintf("mconn %x", raw) }
 		client, server := net.Pipe()
 		var received atomic.Int64
 		var recvBytes atomic.Int64
 		var mu sync.Mutex
 		var onErr interface{}
-		errc := make(chan struct{}, 1)
+		errc := make(chan struct{}) // closed at the first onError
+		var once sync.Once
 		cfg := conn.DefaulKAIConnConfig()
 		cfg.RecvRate, cfg.SendRate = 1<<40, 1<<40
 		acct = nil
@@ -130,10 +169,7 @@ func TestMConnFraming(t *testing.T) {
 				onErr = r
 			}
 			mu.Unlock()
-			select {
-			case errc <- struct{}{}:
-			default:
-			}
+			once.Do(func() { close(errc) })
 		}, cfg)
 		mc.SetLogger(log.New())
 		if err := mc.Start(); err != nil {
@@ -183,17 +219,28 @@ func TestMConnFraming(t *testing.T) {
 		if received.Load() > 0 {
 			classes = append(classes, "mconn:delivered-a-message")
 		}
-		if strings.Contains(e, "EOF") || strings.Contains(e, "closed pipe") {
+		consumed := strings.Contains(e, "EOF") || strings.Contains(e, "closed pipe")
+		if consumed {
 			classes = append(classes, "mconn:consumed-everything")
 		} else {
 			classes = append(classes, "mconn:rejected")
+		}
+		if mustReject {
+			classes = append(classes, "mconn:model-says-must-reject")
+			if consumed {
+				if ev.Violation(t, "mconn.over-capacity-not-refused", text(), "an unterminated message grew past RecvMessageCapacity and the peer was not dropped (connection ended with %q after consuming all %d bytes)", e, len(raw)) {
+					return
+				}
+			}
 		}
 		if strings.HasPrefix(e, "recovered from panic") {
 			if ev.Violation(t, "panic:lib/p2p/conn.(*MConnection).recvRoutine", text(), "recvRoutine panicked on peer bytes: %s", e) {
 				return
 			}
 		}
-		if bound := uint64(allocSlack + allocPerByte*len(raw)); used > bound {
+		// framing: a packet can be 3 bytes long and costs the reader a fixed ~1.2 KB (packet struct, log fields), so the
+		// per-byte allowance is larger here; what the bound is after is an allocation driven by a length PREFIX
+		if bound := uint64(allocSlack + framingAllocPerByte*len(raw)); used > bound {
 			if ev.Violation(t, "alloc.mconn.recv", text(), "MConnection allocated %d bytes for %d bytes from the peer (bound %d)", used, len(raw), bound) {
 				return
 			}
